@@ -495,3 +495,93 @@ pub fn config_histories(seed: u64, n: usize, max_ops: u64) -> RunOut {
     }
     m.c.out
 }
+
+// ---------------------------------------------------------------------------------------------
+// events (C13) and key hygiene (C12)
+
+pub fn event_histories(seed: u64, n: usize, max_ops: u64) -> RunOut {
+    let mut r = Rng::new(seed);
+    let mut c = Ctx { sim: Sim::new(), out: RunOut { ops: vec![], outs: vec![], stats: BTreeMap::new(), failures: vec![], samples: vec![] }, seen: HashSet::new(), hist_digest: String::new() };
+    for _ in 0..n {
+        c.run(format!("new W {SEED_HEX}"));
+        c.run("new X 9d61b19deffd5a60ba844af492ec2cc44449c5697b326919703bac031cae7f60".to_string());
+        c.run("newr R W".into());
+        if r.chance(2, 3) { c.run("sub W".into()); }
+        if r.chance(2, 3) { c.run("sub R".into()); }
+        for _ in 0..r.range(4, max_ops) {
+            let wl = c.sim.h["W"].oracle.len; let rl = c.sim.h["R"].oracle.len;
+            match r.below(14) {
+                0..=2 => { c.run(format!("append W {}", hex(&gen_block(&mut r, false)))); c.run(format!("append X {}", hex(&gen_block(&mut r, false)))); }
+                3 => { let k = r.below(4); if k == 0 { c.run("batch W ~".into()); } else { c.run(format!("batch W {}", (0..k).map(|_| hex(&gen_block(&mut r, false))).collect::<Vec<_>>().join(","))); } }
+                4 if wl > 0 => { let s = r.below(wl); c.run(format!("clear W {s} {}", s + r.range(1, 3))); }
+                5 => { c.run(format!("get W {}", gen_index(&mut r, wl))); }
+                6 => { c.run(format!("get R {}", gen_index(&mut r, rl.max(wl)))); }
+                7 => { let who = if r.chance(1, 2) { "W" } else { "R" }; if c.sim.h[who].subs.len() < 3 { c.run(format!("sub {who}")); } }
+                8 => { c.run("append R 00".into()); }
+                _ if wl > 0 => {
+                    let behind = rl < wl;
+                    let up = if behind && (rl == 0 || r.chance(2, 3)) { let to = r.range(rl + 1, wl); Some((rl, to - rl)) } else { None };
+                    let horizon = up.map(|(s, l)| s + l).unwrap_or(rl);
+                    if horizon == 0 { continue; }
+                    let mut blk = "-".to_string();
+                    if r.chance(2, 3) { let i = r.below(horizon); let o = c.run(format!("missing R {i}")); blk = format!("{i}:{}", o.strip_prefix("ok ").and_then(|x| x.parse::<u64>().ok()).unwrap_or(0)); }
+                    let ups = up.map(|(s, l)| format!("{s}:{l}")).unwrap_or("-".into());
+                    if blk == "-" && ups == "-" { continue; }
+                    let other = { let o = c.run(format!("prove X {blk} - - {ups}")); if o.starts_with("ok fork") { c.sim.proof.clone() } else { None } };
+                    let o = c.run(format!("prove W {blk} - - {ups}"));
+                    if !o.starts_with("ok fork") { continue; }
+                    let honest = c.sim.proof.clone().unwrap();
+                    // sometimes a refused variant first
+                    if r.chance(1, 2) { if let Some((q, _)) = alter(&honest, other.as_ref(), &mut r) { if q != honest { c.sim.proof_honest = false; let o = c.run(format!("applyp R {}", crate::sim::proof_full_txt(&q))); if o.starts_with("ok true") { continue; } } } }
+                    c.sim.proof = Some(honest.clone()); c.sim.proof_honest = true;
+                    c.run(format!("applyp R {}", crate::sim::proof_full_txt(&honest)));
+                }
+                _ => {}
+            }
+        }
+        c.run("evcheck W".into()); c.run("evcheck R".into());
+        c.end_history();
+    }
+    c.out
+}
+
+pub fn readonly_histories(seed: u64, n: usize, max_ops: u64, with_crash: bool) -> RunOut {
+    let mut r = Rng::new(seed);
+    let mut c = Ctx { sim: Sim::new(), out: RunOut { ops: vec![], outs: vec![], stats: BTreeMap::new(), failures: vec![], samples: vec![] }, seen: HashSet::new(), hist_digest: String::new() };
+    for hi in 0..n {
+        c.run(format!("new W {SEED_HEX}"));
+        c.run("pk W".into());
+        c.run("openkp W".into());
+        // all four header-bit parities and 0..3 unflushed entries at the moment of the call
+        let pre = (hi as u64 % 8) + r.below(3);
+        for _ in 0..pre {
+            let len = c.sim.h["W"].oracle.len;
+            let line = random_log_op(&mut r, len, false, false);
+            c.run(line);
+        }
+        c.run(format!("secretscan W {SEED_HEX}"));
+        c.run("ro W".into());
+        if with_crash { c.crash_points("W", Mode::Crash, &mut r, 0); }
+        c.run(format!("secretscan W {SEED_HEX}"));
+        c.run("probe W".into());
+        c.run("pk W".into());
+        c.run(format!("append W {}", hex(&gen_block(&mut r, false))));
+        c.run("batch W 61,62".into());
+        c.run("ro W".into());
+        c.run("dump W".into());
+        c.run("reopen W".into());
+        c.run("pk W".into());
+        c.run("probe W".into());
+        c.run(format!("secretscan W {SEED_HEX}"));
+        c.run("append W 63".into());
+        c.run("ro W".into());
+        c.run("openkp W".into());
+        for _ in 0..r.below(max_ops) { let len = c.sim.h["W"].oracle.len; let line = random_log_op(&mut r, len, false, true); c.run(line); }
+        c.run(format!("secretscan W {SEED_HEX}"));
+        c.run("probe W".into());
+        // a replica is read-only from the start
+        c.run("newr R W".into()); c.run("pk R".into()); c.run("append R 00".into()); c.run("ro R".into()); c.run("probe R".into());
+        c.end_history();
+    }
+    c.out
+}
